@@ -179,6 +179,19 @@ def _match_value(want, got):
     return want == got
 
 
+def local_object_site(msg: str) -> str:
+    """Where the unpicklable local object of a pickling error was defined: "ctor" for `<Class>.__init__.<locals>.<lambda>`
+    (closures registered by a constructor), otherwise the qualified name of the defining function."""
+    import re
+
+    m = re.search(r"local object '([^']+)'", msg) or re.search(r"Can't get local object '([^']+)'", msg)
+    if not m:
+        return "n/a"
+    q = m.group(1)
+    owner = q.split(".<locals>")[0]
+    return "ctor" if owner.endswith(".__init__") else owner
+
+
 def match_known(violation: dict, known: list):
     """Return the id of the *known* (not fixed) finding whose signature matches this violation, else None."""
     for e in known:
